@@ -180,7 +180,11 @@ def mon_c09(sc, prof, pairs):
                 out.append(Failure(sc, prof, i["step"], f"{line}: {f}: soa={i.get(f)} std={s.get(f)}", f"C09:{sub}:{f}", {"I": i["raw"], "S": s["raw"]}))
                 break
         else:
-            if i.get("inb", "true") != "true":
+            # "same effect": the values destroyed and the struct destructors run by the call, as multisets
+            ei, es = sorted(parse_ev(i.get("ev", "[]"))), sorted(parse_ev(s.get("ev", "[]")))
+            if ei != es:
+                out.append(Failure(sc, prof, i["step"], f"{line}: effects: soa={ei} std={es}", f"C09:{sub}:ev", {"I": i["raw"], "S": s["raw"]}))
+            elif i.get("inb", "true") != "true":
                 out.append(Failure(sc, prof, i["step"], f"{line}: view outside the initialised part", f"C09:{sub}:inbounds", {"I": i["raw"]}))
     return out
 
